@@ -151,9 +151,14 @@ func (e *Extractor) RegisterFontsFromResources(resources core.Dict, resolver fun
 		// Register parsed font
 		if parsedFont != nil {
 			e.RegisterParsedFont(name, parsedFont)
-			// Also register with "/" prefix to handle both naming conventions
+			// Also register with "/" prefix to handle both naming conventions -
+			// unless the dictionary has a font of exactly that name: the map is
+			// ranged over in random order, and which of the two fonts ended up
+			// under "/"+name differed from run to run.
 			if !strings.HasPrefix(name, "/") {
-				e.RegisterParsedFont("/"+name, parsedFont)
+				if _, explicit := fonts["/"+name]; !explicit {
+					e.RegisterParsedFont("/"+name, parsedFont)
+				}
 			}
 		}
 	}
